@@ -223,3 +223,8 @@ def run(rep, programs):
     from props import c08
     c08.r_check_dom(rep, prog)
     c08.r_check_guards(rep, prog)
+
+
+EXPLANATION = EXPLANATION + (
+    ' R-CHECK-DOM / R-CHECK-GUARDS (shared with C08): a block that is not entirely inside the managed range is rejected before anything changes.'
+)
